@@ -141,7 +141,7 @@ def substitute(t, mapping):
 # ------------------------------------------------------------------------ state
 
 class State:
-    __slots__ = ('env', 'conds', 'effects', 'trace', 'facts', 'notnone', 'loops', 'subst')
+    __slots__ = ('env', 'conds', 'effects', 'trace', 'facts', 'notnone', 'loops', 'subst', 'alias')
 
     def __init__(self):
         self.env = {}
@@ -152,6 +152,7 @@ class State:
         self.notnone = set()  # terms known not to be None
         self.loops = []       # LoopSummary
         self.subst = {}       # term -> term refinements (atom == const)
+        self.alias = {}       # local name -> group id: names bound to the same object by plain `a = b` copies
 
     def copy(self):
         s = State()
@@ -163,6 +164,7 @@ class State:
         s.notnone = set(self.notnone)
         s.loops = list(self.loops)
         s.subst = dict(self.subst)
+        s.alias = dict(self.alias)
         return s
 
 
@@ -239,6 +241,7 @@ class Evaluator:
         context: formal -> python literal (fixes literal-mode parameters)."""
         st = state.copy() if state is not None else State()
         st.env = {}
+        st.alias = {}
         if closure:
             # variables of the enclosing function (read-only view for a nested function inlined from its parent)
             for k, v in closure.items():
@@ -321,6 +324,22 @@ class Evaluator:
                     continue
                 for tgt in s.targets:
                     s2 = self._assign(tgt, t, s2, mod, fi, depth, ln)
+                    # object identity: `a = b` makes a and b the same object until one of them is rebound
+                    for n in ast.walk(tgt):
+                        if isinstance(n, ast.Name):
+                            s2.alias.pop(n.id, None)
+                    if isinstance(tgt, ast.Name) and isinstance(s.value, ast.Name) and s.value.id in s2.env:
+                        g = s2.alias.get(s.value.id)
+                        if g is None:
+                            g = s2.alias[s.value.id] = next(self._fresh)
+                        s2.alias[tgt.id] = g
+                if len(s.targets) > 1 and all(isinstance(tg, ast.Name) for tg in s.targets):
+                    # a = b = <expr>: one object, several names
+                    g = s2.alias.get(s.value.id) if isinstance(s.value, ast.Name) else None
+                    if g is None:
+                        g = next(self._fresh)
+                    for tg in s.targets:
+                        s2.alias[tg.id] = g
                 res.append(Exit('fall', None, s2))
             return res
         if isinstance(s, ast.AnnAssign):
@@ -343,7 +362,20 @@ class Evaluator:
                     res.append(Exit('raise', t, s2, s))
                 else:
                     t = ('bin', t[1], t[2], t[3]) if t[0] == 'bin' else t
+                    peers = []
+                    if isinstance(s.target, ast.Name) and s.target.id in s2.alias:
+                        old = s2.env.get(s.target.id)
+                        g = s2.alias[s.target.id]
+                        if old is not None and _is_array_expr(old):
+                            peers = [n for n, gg in s2.alias.items() if gg == g and n != s.target.id
+                                     and s2.env.get(n) == old]
                     s2 = self._assign(s.target, t, s2, mod, fi, depth, ln, aug=True)
+                    if isinstance(s.target, ast.Name) and s.target.id in s2.alias or peers:
+                        g = s2.alias.get(s.target.id)
+                    for n in peers:
+                        # an augmented assignment updates an array in place: every other name of that object sees it
+                        s2.env[n] = t
+                        s2.trace.append('%d:in-place update of %s also changes its alias %s' % (ln, s.target.id, n))
                     res.append(Exit('fall', None, s2))
             return res
         if isinstance(s, ast.Return):
@@ -1236,7 +1268,14 @@ class Evaluator:
                 key = _lvalue_key(e.func.value)
                 st.effects.append(('mutcall', name, bt, tuple(pos), ln, key))
                 if key:
-                    st.env[key] = ('mut', name, bt, tuple(pos))
+                    new = ('mut', name, bt, tuple(pos))
+                    if key in st.alias:
+                        # the object is changed in place: every other name bound to it sees the change
+                        for n, g in list(st.alias.items()):
+                            if g == st.alias[key] and n != key and st.env.get(n) == bt:
+                                st.env[n] = new
+                                st.trace.append('%d:in-place %s() on %s also changes its alias %s' % (ln, name, key, n))
+                    st.env[key] = new
             self.stats['calls_unresolved'] += 1
             # a term that is a function reference / partial called as a value
             return [(t, st, 'ok')]
@@ -1265,6 +1304,12 @@ class Evaluator:
                 # every evaluation of a sampler is a distinct draw: tag the term so two draws never compare equal
                 kws = list(kws) + [('#draw', C(next(self._fresh)))]
                 st.effects.append(('rng', callee.dotted, ln))
+            # one spelling for "indices where a 1-D condition holds":
+            #   np.nonzero(c) == np.where(c) ;  np.flatnonzero(c) == np.where(c)[0]
+            if callee.dotted == 'numpy.nonzero' and len(pos) == 1 and not kws:
+                return [(('call', 'numpy.where', tuple(pos), ()), st, 'ok')]
+            if callee.dotted == 'numpy.flatnonzero' and len(pos) == 1 and not kws:
+                return [(('sub', ('call', 'numpy.where', tuple(pos), ()), C(0)), st, 'ok')]
             return [(('call', callee.dotted, tuple(pos), tuple(sorted(kws, key=lambda x: x[0]))), st, 'ok')]
         # repo function or class: bind to formals
         f = callee.func
@@ -1281,6 +1326,7 @@ class Evaluator:
             out = []
             sub = st.copy()
             saved_env = sub.env
+            saved_alias = dict(sub.alias)
             closure = None
             if f.parent is not None and fi is not None and (f.parent is fi):
                 closure = {k: v for k, v in saved_env.items() if not k.startswith('closure:')}
@@ -1288,6 +1334,7 @@ class Evaluator:
             for x in exits:
                 s2 = x.state
                 s2.env = dict(saved_env)
+                s2.alias = dict(saved_alias)
                 s2.trace.append('%d:<- %s' % (ln, f.name))
                 out.append((x.value, s2, 'raise' if x.kind == 'raise' else 'ok'))
             if len(out) > 1:
